@@ -5,7 +5,9 @@
    unrepaired code does.  `ready s` = a session state between two events: no protocol error so far, the receive
    buffer holds an incomplete packet (or nothing).  `parse_stream q bytes` = the chunk-free stream parser (the packet
    loop applied to the whole byte stream at once).  `d_tight = false` = the send queue never had to be compacted
-   while these bytes were handled (it has room for the acknowledgements). *)
+   while these bytes were handled (it has room for the acknowledgements).  `ledger q q' o` = nothing is left unsent in q',
+   q' is q (same types, ids, sent bits) plus new entries, and the packets sent in o are exactly the new entries that were
+   sent, in queue order. *)
 From Coq Require Import List ZArith.
 Import ListNotations.
 From V Require Import Base.Bytes Gen.MqttConsts C16.Model C16.Proofs.
@@ -19,7 +21,8 @@ Theorem C16_refines_stream_parser : forall segs s q0,
   d_tight d = false ->
   let r := run_from FIXED s (map Seg segs) in
   rx_of (snd r) = rx_of (d_out d) ++ rx_of_stop (d_stop d) /\ qeq (mq (fst r)) (d_q d) /\
-  (d_stop d = Wait -> ready (fst r) /\ buf (fst r) = d_rest d) /\ (d_stop d <> Wait -> halted (fst r) = true).
+  (d_stop d = Wait -> ready (fst r) /\ buf (fst r) = d_rest d) /\ (d_stop d <> Wait -> halted (fst r) = true) /\
+  (all_sent (mq s) -> halted (fst r) = false -> ledger (mq s) (mq (fst r)) (snd r)).
 Proof. exact C16_refines_thm. Qed.
 Print Assumptions C16_refines_stream_parser.
 
@@ -46,6 +49,17 @@ Theorem C16_exact_delivery : forall s segs dup qos retain pid topic payload,
   ready (fst r) /\ buf (fst r) = [] /\ qeq (mq (fst r)) (mq s ++ ack_entry qos pid).
 Proof. exact C16_exact_delivery_thm. Qed.
 Print Assumptions C16_exact_delivery.
+
+(* ... and exactly its acknowledgement goes to the wire: nothing for QoS 0, PUBACK resp. PUBREC with the packet id of the
+   PUBLISH for QoS 1 / 2 (`sents` = the packets handed to espconn_sent during the run; `all_sent` = nothing was waiting in
+   the queue before). *)
+Theorem C16_exact_delivery_acked : forall s segs dup qos retain pid topic payload,
+  ready s -> buf s = [] -> Forall bytes_ok segs -> all_sent (mq s) ->
+  wf_publish dup qos retain pid topic payload -> accepts (mq s) qos pid ->
+  concat segs = enc_publish dup qos retain pid topic payload ->
+  sents (snd (run_from FIXED s (map Seg segs))) = map sent_out (ack_entry qos pid).
+Proof. exact C16_exact_delivery_acked_thm. Qed.
+Print Assumptions C16_exact_delivery_acked.
 
 (* The same inside a longer stream (packets coalesced): the PUBLISH at the head is delivered and parsing goes on
    with the rest and the acknowledgement in the queue. *)
